@@ -5,7 +5,7 @@ open AasVerif AasVerif.SdkConst
 /-! Wire format (one token per request argument, no spaces inside):
 
 * value: `B:0` `B:1` `I:<decimal>` `F:<hex text of repr>` `S:<hex text>` `Y:<hex bytes>`
-* list of X: `,`-joined, `[]` when empty
+* list of X: `,`-joined, `[]` when empty (e.g. the names of the classes)
 * enumeration: `<name>/<lit>=<value>,…`; list of enumerations `;`-joined, `[]` when empty
 * constant: `P/<name>/<declared>/<value>` | `S/<name>/<item>/<values>/<superset_of>` |
   `E/<name>/<enum>/<literal names>/<superset_of>`; list `;`-joined, `[]` when empty
@@ -57,8 +57,8 @@ def decConst (s : String) : Option Const :=
     some (.enumSet (← Text.dec n) (← Text.dec e) (← listOf "," Text.dec ls) (← listOf "," Text.dec ss))
   | _ => none
 
-def decMM (es cs : String) : Option MM := do
-  some { enums := ← listOf ";" decEnum es, constants := ← listOf ";" decConst cs }
+def decMM (es cls cs : String) : Option MM := do
+  some { enums := ← listOf ";" decEnum es, classes := ← listOf "," Text.dec cls, constants := ← listOf ";" decConst cs }
 
 def join (sep : String) (xs : List String) : String := if xs.isEmpty then "[]" else sep.intercalate xs
 
@@ -87,7 +87,7 @@ def boolStr (b : Bool) : String := if b then "1" else "0"
 
 def handle : List String → Option String
   /- the front end and, when it accepts, everything the three generated modules expose -/
-  | ["sdk", es, cs] => (decMM es cs).map fun mm =>
+  | ["sdk", es, cls, cs] => (decMM es cls cs).map fun mm =>
     match frontEnd mm with
     | .crash s => "crash:" ++ s
     | .rejected st _ => "rejected:" ++ encStage st
@@ -112,7 +112,7 @@ def handle : List String → Option String
   /- `_resolve_subsets_in_constant_set_of_*` called on the constant `name` of the first-pass
      table with its placeholders replaced -/
   | ["resolve", es, cs, name, placeholders] => do
-    let mm ← decMM es cs
+    let mm ← decMM es "[]" cs
     let n ← Text.dec name
     let ps ← listOf "," Text.dec placeholders
     match firstPass mm.enums mm.constants with
